@@ -16,7 +16,7 @@ import copy
 
 from statham.schema.constants import NotPassed
 
-from sim import gen
+from sim import common, gen
 from sim.common import gen_perm, install_validator_order
 from sim.world import (
     CLASS_KW,
@@ -404,7 +404,17 @@ def gen_case(rng, force=(), forbid=()):
         "perm": perm,
         "ops": ops,
         "swarm": swarm.describe(),
+        "pristine": rng.random() < 0.3,
     }
+
+
+def reference_call(model, path, arg, perm):
+    """Outcome of one call on a tree freshly constructed from `model`, in a
+    process that has never validated anything (executed via common.pristine)."""
+    install_validator_order(perm)
+    fresh = build(model)
+    verdict, result, _ = attempt(live_resolve(fresh, path), _value(arg))
+    return verdict, norm(result) if verdict == "accept" else None
 
 
 # --------------------------------------------------------------------------
@@ -461,6 +471,23 @@ def exec_case(case, log, stats):
                 "op_index": idx,
                 "detail": {"live": [verdict, nres], "fresh": [fverdict, fnres]},
             }
+        if case.get("pristine"):
+            # the same call on a fresh tree in a process that has never
+            # validated anything: catches state kept outside the tree
+            pverdict, pnres = common.pristine(
+                "sim.c13", "reference_call", model, op["path"], op["arg"], case.get("perm")
+            )
+            stats.inc("pristine_process_references")
+            if (verdict, nres) != (pverdict, pnres):
+                return {
+                    "invariant": "history_dependent_verdict",
+                    "op_index": idx,
+                    "detail": {
+                        "live": [verdict, nres],
+                        "pristine_process": [pverdict, pnres],
+                        "same_process_fresh_tree": [fverdict, fnres],
+                    },
+                }
         if prev_model is not None and flips_after and not flips_after[-1]:
             try:
                 old = build(prev_model)
